@@ -4,7 +4,10 @@
 
 package rangeplugin
 
-//@ guard PluginState.Recordsv4 by Mutex
+//@ guard PluginState.Recordsv4 by Mutex|RWMutex
+// concurrency (C16): the lease table is whatever other goroutines left when the lock is acquired;
+// the postconditions describe the critical section (old() = state at acquisition)
+//@ protects PluginState.Mutex|RWMutex: mapc(self.Recordsv4) invariant forall k string: has(self.Recordsv4, k) ==> (self.Recordsv4[k] != nil && allocated(self.Recordsv4[k]))
 
 // state invariant of a PluginState (established by setupRange, preserved by Handler4)
 //@ pure func rinv(p *PluginState) bool = p != nil && p.Recordsv4 != nil && p.allocator != nil && p.leasedb != nil && \
